@@ -75,6 +75,14 @@ func selftest(args []string) int {
 		}
 	}
 	sort.Strings(props)
+	var findings []KnownFinding
+	loadJSON(filepath.Join(*verif, "known_findings.json"), &findings)
+	openFinding := map[string]bool{}
+	for _, f := range findings {
+		if f.Status == "open" {
+			openFinding[f.Property+" "+f.Obligation] = true
+		}
+	}
 	bad := 0
 	for _, p := range props {
 		for _, kind := range []string{"mutants", "benign"} {
@@ -93,6 +101,9 @@ func selftest(args []string) int {
 				res := runProperty(*repo, *verif, p, cfgs[p], "quick", ov, false)
 				var failed []string
 				for _, r := range res.Obls {
+					if r.Status != "proved" && openFinding[p+" "+r.Name] {
+						continue // fails on the unchanged tree as well: a recorded open finding (KNOWN-FINDING), not a verdict on the patch
+					}
 					if r.Status != "proved" && !strings.Contains(r.Name, "#asis:") {
 						failed = append(failed, shortObl(r.Name)+"("+r.Class+")")
 					}
